@@ -468,7 +468,11 @@ pub fn run(prop: &'static str, tier: Tier, seed: u64) -> i32 {
     let mut stepping = 0usize;
     let mut machinery_errors: Vec<String> = Vec::new();
     let mut capped = false;
+    // blocks of a space in which stepping confirmed a crash or a hang; after
+    // MAX_DEAD_BLOCKS_PER_SPACE of them the rest of the space is skipped (a mere stall under
+    // load that stepping does not confirm costs nothing but time)
     let mut dead_blocks: HashMap<usize, usize> = HashMap::new();
+    let mut condemned: HashSet<usize> = HashSet::new();
 
     let assign = |w: &mut Worker, jobs: &mut VecDeque<(usize, u64)>| {
         if !w.alive || w.busy.is_some() || w.quitting {
@@ -534,20 +538,9 @@ pub fn run(prop: &'static str, tier: Tier, seed: u64) -> i32 {
                 let _ = w.child.wait();
                 if let Some((s, b, _)) = w.busy.take() {
                     // died in the middle of a block: pinpoint by stepping
-                    let dead = dead_blocks.entry(s).or_insert(0usize);
-                    *dead += 1;
-                    if *dead >= MAX_DEAD_BLOCKS_PER_SPACE {
-                        // fail fast: the remaining blocks of this space are not run
-                        let before = jobs.len();
-                        let skipped: Vec<(usize, u64)> = jobs.iter().filter(|j| j.0 == s).cloned().collect();
-                        jobs.retain(|j| j.0 != s);
-                        if before != jobs.len() {
-                            capped = true;
-                            agg.incomplete_blocks.extend(skipped);
-                        }
-                    }
-                    if *dead > MAX_DEAD_BLOCKS_PER_SPACE {
-                        // blocks that were already running when the space was cancelled
+                    if condemned.contains(&s) {
+                        // the space was given up after confirmed crashes or hangs: blocks that
+                        // were still running are not pinpointed any more
                         agg.incomplete_blocks.push((s, b));
                         if !jobs.is_empty() {
                             let nid = workers.len();
@@ -574,6 +567,18 @@ pub fn run(prop: &'static str, tier: Tier, seed: u64) -> i32 {
             }
             Ok(Msg::Stepped(s, b, r)) => {
                 stepping -= 1;
+                if !r.incidents.is_empty() {
+                    let dead = dead_blocks.entry(s).or_insert(0usize);
+                    *dead += 1;
+                    if *dead >= MAX_DEAD_BLOCKS_PER_SPACE && condemned.insert(s) {
+                        let skipped: Vec<(usize, u64)> = jobs.iter().filter(|j| j.0 == s).cloned().collect();
+                        jobs.retain(|j| j.0 != s);
+                        if !skipped.is_empty() {
+                            capped = true;
+                            agg.incomplete_blocks.extend(skipped);
+                        }
+                    }
+                }
                 if let Some(d) = &r.done {
                     agg.add_done(d, Some(r.evals));
                 } else {
